@@ -163,25 +163,27 @@ def edSet (d : EntryDict) (dir name : Str) (e : Entry) : EntryDict :=
   if d.any (·.1 == dir) then d.map (fun kv => if kv.1 == dir then (dir, upd kv.2) else kv)
   else d ++ [(dir, upd [])]
 
-/-- the body of the double loop of `get_file_entry_dict` (only_types=None) -/
+/-- one iteration of the inner loop of `get_file_entry_dict` (only_types=None): entry `e` of a Manifest in directory `rel` -/
+def edStep (path rel : Str) (out : EntryDict) (e : Entry) : Except Err EntryDict :=
+  match e with
+  | .timestamp _ => .ok out
+  | .file .DIST _ _ _ => .ok out
+  | _ =>
+    let full := pjoin rel e.fullPath
+    if !pathStartsWith full path then .ok out else
+    let dirp := dirname full
+    let name := basename e.fullPath
+    match (edGet out dirp).find? (·.1 == name) with
+    | none => .ok (edSet out dirp name e)
+    | some (_, old) =>
+      match entryCompat old e with
+      | .error err => .error err
+      | .ok (.ok extra) => .ok (edSet out dirp name (if extra then mergeEntries old e else e))
+      | .ok _ => .error .incompatible
+
+/-- the double loop of `get_file_entry_dict` -/
 def entryDictFold (path : Str) (ms : List (Str × Str × List Entry)) : Except Err EntryDict :=
-  ms.foldlM (fun out (_, rel, es) =>
-    es.foldlM (fun (out : EntryDict) e =>
-      match e with
-      | .timestamp _ => pure out
-      | .file .DIST _ _ _ => pure out
-      | _ =>
-        let full := pjoin rel e.fullPath
-        if !pathStartsWith full path then pure out else
-        let dirp := dirname full
-        let name := basename e.fullPath
-        match (edGet out dirp).find? (·.1 == name) with
-        | none => pure (edSet out dirp name e)
-        | some (_, old) =>
-          match entryCompat old e with
-          | .error err => throw err
-          | .ok (.ok extra) => pure (edSet out dirp name (if extra then mergeEntries old e else e))
-          | .ok _ => throw .incompatible) out) []
+  ms.foldlM (fun out (_, rel, es) => es.foldlM (edStep path rel) out) []
 
 /-- `get_file_entry_dict(path)` -/
 def Loader.getFileEntryDict (w : World) (l : Loader) (path : Str) (verify : Bool := true) :
